@@ -193,13 +193,20 @@ func c04E2E(res *lib.Result, tier string, root *lib.Rng) error {
 	for wi := 0; wi < n; wi++ {
 		r := root.Fork(uint64(4400000 + wi))
 		var src string
-		if wi%3 != 0 {
-			src = genC19File(r, "q") + genC19File(r.Fork(7), "r")
-		} else {
+		switch wi % 4 {
+		case 0:
 			src = genScopeProgram(r)
+		case 3:
+			src = genC20Program(r) // every pattern diagnostic (their ranges are composed from operand locations)
+		default:
+			src = genC19File(r, "q") + genC19File(r.Fork(7), "r")
 		}
+		// globals defined in a second, longer file and used here: a location of that file must never be
+		// reported as a position of this one
+		src += "gshared_add(1)\nprint(gshared_counter)\n"
+		defs := "-- shared definitions\nlocal pad1 = 1\nlocal pad2 = 2\nlocal pad3 = 3\nprint(pad1, pad2, pad3)\n" + strings.Repeat("\n", 40+strings.Count(src, "\n")) + "gshared_counter = 10\nfunction gshared_add(n)\n\tgshared_counter = gshared_counter + n\nend\n"
 		dir := lib.ScratchDir(fmt.Sprintf("c04e%d", wi))
-		if err := lib.WriteWorkspace(dir, map[string]string{"main.lua": src}); err != nil {
+		if err := lib.WriteWorkspace(dir, map[string]string{"main.lua": src, "defs.lua": defs}); err != nil {
 			return err
 		}
 		sess, err := lib.StartSession(dir, lib.AllChecksOptions())
@@ -276,6 +283,14 @@ func c04E2E(res *lib.Result, tier string, root *lib.Rng) error {
 						if t, ok := textAt(l.Range); ok && p.name != "self" && !okText["self"] && !okText[t] {
 							res.AddViolation("impl-vs-spec", fmt.Sprintf("definition of %s at %d:%d: the range %s selects %q, not the identifier", p.name, p.line, p.col, locOfRange(l.Range), t), src, false)
 						}
+					}
+				}
+			}
+			if hls, err := sess.Highlight("main.lua", p.line, p.col); err == nil {
+				for _, h := range hls {
+					check(fmt.Sprintf("highlight of %s at %d:%d", p.name, p.line, p.col), h)
+					if t, ok := textAt(h); ok && p.name != "self" && !okText["self"] && !okText[t] && t != "self" {
+						res.AddViolation("impl-vs-spec", fmt.Sprintf("highlight of %s at %d:%d: the range %s selects %q, not the identifier", p.name, p.line, p.col, locOfRange(h), t), src, false)
 					}
 				}
 			}
